@@ -121,12 +121,12 @@ theorem nodeTest_testToks {c : Cfg} {t : NodeTest} {r : Toks} (hr : folPlain r =
   cases t with
   | any => exact nodeTest_any hr
   | name l => exact nodeTest_name hr
-  | _ => simp [testToks, nodeTest, T, nameTok, gl_true]
+  | _ => simp [testToks, nodeTest, T, U, litTok, nameTok, gl_true]
 
 theorem callStart_fnToks {c : Cfg} {p : Option Chars} {n : Chars} {r : Toks} :
-    callStart c (fnToks p n ++ T (.p .lparen) :: r) = some (p, n, r) := by
+    callStart c (fnToks p n ++ U (.p .lparen) :: r) = some (p, n, r) := by
   cases p with
-  | none => simp [fnToks, callStart, fnTok, T]
-  | some p => simp [fnToks, callStart, fnTok, T, gl_true]
+  | none => simp [fnToks, callStart, fnTok, U]
+  | some p => simp [fnToks, callStart, fnTok, T, U, gl_true]
 
 end Xsel.Syntax
